@@ -1515,7 +1515,8 @@ impl Attr for XmlAttr {
     }
 
     fn specified(&self) -> bool {
-        self.attribute.borrow().owner_element().is_ok()
+        // False only for an attribute materialised from an attribute-list default.
+        self.attribute.borrow().specified()
     }
 
     fn value(&self) -> error::Result<String> {
